@@ -23,7 +23,7 @@ for name, prop, needs, caught, first, hist in rows:
     out.append('| `%s` | %s | %s | %s | %s |' % (name, prop, needs.replace('|', '/'), caught.replace('|', '/'), first))
 missed = [(n, h) for n, _, _, _, f, h in rows if f == 'missed at first']
 out += ['', 'Totals: %d seeded changes, %d caught by the check as first built, %d missed at first and caught after the check was strengthened, %d still not caught.' % (
-    len(rows), sum(1 for r in rows if r[4] == 'caught at once'), len(missed), sum(1 for r in rows if r[3] == '**not caught**')),
+    len(rows), sum(1 for r in rows if r[4] == 'caught at once'), len(missed) - sum(1 for r in rows if r[3] == '**not caught**'), sum(1 for r in rows if r[3] == '**not caught**')),
  '', 'What each miss taught (the strengthening is in the check, never in the oracle\'s tolerance):', '']
 for n, h in missed:
     out.append('* `%s` — %s' % (n, h))
